@@ -32,6 +32,29 @@ WDAYS = ["Monday", "Tuesday", "Wednesday", "Thursday", "Friday", "Saturday", "Su
 PREFS = ["past", "future", "current_period"]
 
 
+_LN = {}
+
+
+def lang_names(lang):
+    """({month: [names]}, {weekday: [names]}) — the single-meaning names (C05's rule) of a language, without the names that are
+    recorded C05 findings (a name the library does not understand at all says nothing about PREFER_DATES_FROM)."""
+    if lang not in _LN:
+        from checks import c05
+        from vlib import data
+        from vlib.runner import Known
+        known = set(Known("C05").known)
+        ms, ws = {}, {}
+        for key, name in c05.names_for(lang, True, True):
+            if any(ch.isdigit() for ch in name) or "%s|%s|%s" % (lang, key, c05._norm_name(name)) in known:
+                continue
+            if key in data.MONTHS:
+                ms.setdefault(data.MONTHS.index(key) + 1, []).append(name)
+            else:
+                ws.setdefault(data.WEEKDAYS.index(key), []).append(name)
+        _LN[lang] = (ms, ws)
+    return _LN[lang]
+
+
 def _fail(bucket, detail, key, cls):
     return {"ok": False, "bucket": bucket, "detail": detail, "key": key, "cls": cls}
 
@@ -52,10 +75,30 @@ def check_case(case):
         clock.freeze(dt.datetime(2001, 2, 3, 4, 5, 6))
     cls = ["form:" + form, "pref:" + pref]
     refday = dt.datetime(ref.year, ref.month, ref.day)
+    lang = case.get("lang") or "en"
+    lname = None
+    if lang != "en":
+        # the same forms written with the names of another language (that language selected): the choice of the occurrence
+        # happens after translation and must not depend on the language the name was written in
+        ms, ws = lang_names(lang)
+        pool = ws.get(case.get("wd")) if form == "weekday" else ms.get(case.get("m"))
+        if not pool:
+            clock.freeze(None)
+            return {"ok": True, "skip": "the language lists no single-meaning name for this month/weekday", "cls": cls}
+        lname = pool[case.get("name_idx", 0) % len(pool)]
+        cls.append("lang:other")
+        if form == "day_month":
+            from vlib import data as _data
+            if (_data.info(lang).get("date_order") or "MDY")[0] == "Y":
+                # in a year-first locale a bare number before a month name is a (two-digit) year: '10 一月' is January 2010
+                clock.freeze(None)
+                return {"ok": True, "skip": "day + month name in a year-first locale (the number is read as a year)", "cls": cls}
 
     if form == "weekday":
         wd = case["wd"]
         s = WDAYS[wd] if case["style"] == 0 else WDAYS[wd][:3] if case["style"] == 1 else WDAYS[wd].lower()
+        if lname:
+            s = lname
         delta = (ref.weekday() - wd) % 7  # days back to the most recent such weekday (0 = today)
         if pref == "past":
             want = refday - dt.timedelta(days=delta or 7)
@@ -81,12 +124,16 @@ def check_case(case):
             cls.append("time:tz")
     elif form == "month":
         s = MONTHS[case["m"] - 1] if case["style"] != 1 else MONTHS[case["m"] - 1][:3]
+        if lname:
+            s = lname
         want = None
         if ref.day > mdays(2001, case["m"]):
             cls.append("month:ref-day-missing-in-month")
     elif form == "day_month":
         m, d = case["m"], case["d"]
         s = ("%d %s" % (d, MONTHS[m - 1])) if case["style"] != 1 else ("%s %d" % (MONTHS[m - 1], d))
+        if lname:
+            s = "%d %s" % (d, lname)
         want = None
         if (m, d) == (2, 29):
             cls.append("feb29")
@@ -104,11 +151,15 @@ def check_case(case):
         raise ValueError(form)
 
     try:
-        dd = DateDataParser(languages=["en"], settings=settings).get_date_data(s)
+        dd = DateDataParser(languages=[lang], settings=settings).get_date_data(s)
     finally:
         clock.freeze(None)
     got = dd.date_obj
-    desc = "%r ref=%s pref=%s%s" % (s, ref, pref, " TIMEZONE=%s" % tzname if tzname else "")
+    desc = "%r%s ref=%s pref=%s%s" % (s, "" if lang == "en" else " lang=" + lang, ref, pref, " TIMEZONE=%s" % tzname if tzname else "")
+    if lname and form == "day_month" and got is not None and (got.month, got.day) != (case["m"], case["d"]):
+        # 'D <name>' is read another way in this language (a number next to a month name is a year in year-first locales):
+        # the construction does not say which parts the string names
+        return {"ok": True, "skip": "day + month name read differently in this language", "cls": cls}
     if got is None:
         return _fail("%s:none" % form, desc + " -> None", (form, pref, "none"), cls)
 
@@ -242,6 +293,11 @@ def cases(draw):
     form = draw(st.sampled_from(["weekday", "weekday", "time", "time", "month", "day_month", "yy"]))
     c = {"ref": ref, "pref": pref, "form": form, "style": draw(st.integers(0, 2)),
          "via": draw(st.sampled_from(["base", "base", "clock"]))}
+    if form in ("weekday", "month", "day_month") and draw(st.integers(0, 3)) == 0:
+        from vlib import data
+        order = data.language_order()
+        c["lang"] = draw(st.one_of(st.sampled_from(order[:40]), st.sampled_from(order)))
+        c["name_idx"] = draw(st.integers(0, 7))
     if form == "weekday":
         c["wd"] = draw(st.one_of(st.integers(0, 6), st.just(dt.date(*ref[:3]).weekday())))
     elif form == "time":
